@@ -30,6 +30,9 @@ import numpy as np
 ROOT = os.path.dirname(os.path.dirname(os.path.abspath(__file__)))
 REPO = os.environ.get('VERIF_REPO', '/repo')
 PYTHON = os.environ.get('VERIF_PYTHON', '/venv/bin/python')
+# evidence/ and replays/ go under VERIF_OUT when set (mutation and seeded-change runs must not
+# overwrite the evidence of the unchanged tree); default: the checkout itself
+OUT = os.environ.get('VERIF_OUT') or None
 DEPS = os.path.join(ROOT, '.deps')
 
 
@@ -353,7 +356,7 @@ def decide(mod, prop, tier, seed, results, failures, wall):
     classify = getattr(mod, 'classify', lambda v: v['key'])
     lines = []
     new_viol, known_hit = [], collections.OrderedDict()
-    os.makedirs(os.path.join(ROOT, 'replays'), exist_ok=True)
+    os.makedirs(os.path.join(OUT or ROOT, 'replays'), exist_ok=True)
     seen_keys = set()
     for v in violations:
         key = classify(v)
@@ -366,7 +369,7 @@ def decide(mod, prop, tier, seed, results, failures, wall):
             continue
         seen_keys.add(key)
         h = fingerprint({'k': key, 'c': v['case']})[:12]
-        path = os.path.join(ROOT, 'replays', '%s-%s.json' % (prop, h))
+        path = os.path.join(OUT or ROOT, 'replays', '%s-%s.json' % (prop, h))
         with open(path, 'w') as f:
             f.write(dumps({'property': prop, 'tier': tier, 'seed': seed, 'violation': v, 'case': v['case']}, indent=1))
         lines.append('VIOLATION property=%s replay=%s key=%s :: %s' % (prop, path, key, v['msg'].strip().splitlines()[-1][:300] if v['msg'].strip() else ''))
@@ -420,8 +423,8 @@ def decide(mod, prop, tier, seed, results, failures, wall):
         'technique': getattr(mod, 'TECHNIQUE', ''),
         'inconclusive_reasons': inconclusive,
     }
-    os.makedirs(os.path.join(ROOT, 'evidence'), exist_ok=True)
-    with open(os.path.join(ROOT, 'evidence', '%s.json' % prop), 'w') as f:
+    os.makedirs(os.path.join(OUT or ROOT, 'evidence'), exist_ok=True)
+    with open(os.path.join(OUT or ROOT, 'evidence', '%s.json' % prop), 'w') as f:
         f.write(dumps(ev, indent=1) + '\n')
 
     for ln in lines:
